@@ -1431,13 +1431,12 @@ package go_clipper2
 
 //@ func getAdjacentLocation
 //@   props C06 C03
-//@   requires sideLoc(loc)
-//@   ensures [adjacent] sideLoc(result) && result == ite(isClockwise, ite(loc == 3, 0, loc+1), ite(loc == 0, 3, loc-1))
+//@   requires validLoc(loc)
+//@   ensures [adjacent] sideLoc(result) && (sideLoc(loc) ==> result == ite(isClockwise, ite(loc == 3, 0, loc+1), ite(loc == 0, 3, loc-1)))
 
 //@ func headingClockwise
 //@   props C06 C03
-//@   requires validLoc(prev) && validLoc(curr)
-//@   ensures [clockwise] result == ((prev == 0 && curr == 1) || (prev == 1 && curr == 2) || (prev == 2 && curr == 3) || (prev == 3 && curr == 0) || (prev == 4 && curr == 1))
+//@   ensures [clockwise] validLoc(prev) && validLoc(curr) ==> result == ((prev == 0 && curr == 1) || (prev == 1 && curr == 2) || (prev == 2 && curr == 3) || (prev == 3 && curr == 0) || (prev == 4 && curr == 1))
 
 //@ func getIntersection
 //@   props C06 C11 C03
@@ -1452,7 +1451,7 @@ package go_clipper2
 //@   nosafety
 //@   assumes forall(k, 0, len(r.results), r.results[k] != nil)
 //@   ensures [returns-a-node] result != nil && result.pt == pt
-//@   ensures [registered] len(r.results) >= 1 && len(r.results) >= old(len(r.results))
+//@   ensures [registered] len(r.results) >= 1 && len(r.results) >= old(len(r.results)) && forall(k, 0, len(r.results), r.results[k] != nil)
 
 //@ func RectClip64.getNextLocation
 //@   props C06 C11 C03
@@ -1464,4 +1463,29 @@ package go_clipper2
 //@   loop 4 invariant [idx] old(*i) <= *i && *i <= highI + 1 && validLoc(*loc)
 //@   ensures [advances] old(*i) <= *i && *i <= highI + 1
 //@   ensures [valid-location] validLoc(*loc)
-//@   ensures [left-the-previous-side] (*i <= highI && old(*loc) != 4) ==> *loc != old(*loc)
+//@   ensures [left-the-previous-side] *i <= highI ==> *loc != old(*loc)
+
+//@ spec rectOK(r *RectClip64) bool = len(r.rectPath) == 4 && rectDom(r.rect) && r.rectPath[0] == Point64{r.rect.left, r.rect.top} && r.rectPath[1] == Point64{r.rect.right, r.rect.top} && r.rectPath[2] == Point64{r.rect.right, r.rect.bottom} && r.rectPath[3] == Point64{r.rect.left, r.rect.bottom} && len(r.edges) == 8 && dom(r.mp, 29)
+
+//@ func RectClip64.addCorner
+//@   props C06 C03
+//@   assumes sideLoc(*loc) && len(r.rectPath) == 4
+//@   ensures [moves-to-adjacent-side] sideLoc(*loc) && *loc == ite(isClockwise, ite(old(*loc) == 3, 0, old(*loc)+1), ite(old(*loc) == 0, 3, old(*loc)-1))
+
+//@ func RectClip64.addCornerLocation
+//@   props C06 C03
+//@   assumes sideLoc(prev) && sideLoc(curr) && len(r.rectPath) == 4
+
+//@ func RectClip64.executeInternal
+//@   props C06 C03
+//@   requires exists(k, 0, len(path), !onRectBoundary(r.rect, path[k]))
+//@   assumes domPath(path, 28) && absI(r.rect.left) <= pow2(28) && absI(r.rect.right) <= pow2(28) && absI(r.rect.top) <= pow2(28) && absI(r.rect.bottom) <= pow2(28)
+//@   assumes rectOK(r) && forall(k, 0, len(r.results), r.results[k] != nil)
+//@   loop 0 invariant [scan-back] 0 <= i && i <= highI - 1 && highI == len(path) - 1 && len(path) >= 3 && (!ok ==> exists(k, 0, i, !onRectBoundary(r.rect, path[k]))) && (ok ==> validLoc(prev)) && validLoc(loc)
+//@   loop 0 decreases i
+//@   loop 2 invariant [walk] 0 <= i && highI == len(path) - 1 && len(path) >= 3 && validLoc(loc) && validLoc(firstCross) && validLoc(crossingLoc) && rectOK(r)
+//@   loop 2.0 invariant [corner-walk] validLoc(prev) && validLoc(loc) && rectOK(r) && 0 <= i && i <= highI && highI == len(path) - 1
+//@   loop 2.1 invariant [corner-walk] validLoc(prev) && validLoc(loc) && rectOK(r) && 0 <= i && i <= highI && highI == len(path) - 1
+//@   loop 2.2 invariant [corner-walk] validLoc(prev) && validLoc(loc) && validLoc(crossingLoc) && rectOK(r) && 0 <= i && i <= highI && highI == len(path) - 1
+//@   loop 3 invariant [corners] 0 <= j && j <= 4 && rectOK(r)
+//@   loop 4 invariant [start-locs] rectOK(r)
